@@ -437,29 +437,36 @@ fn c15_gate_check(name: &str, st: &[GateModifier], p: &[f64], pl: &[u64], n: u64
     }
 }
 
-const PLACED: &[(&str, &[u64], &[f64])] = &[
-    ("X", &[0], &[]),
-    ("H", &[1], &[]),
-    ("S", &[2], &[]),
-    ("RX", &[0], &[0.37]),
-    ("RZ", &[1], &[-1.1]),
-    ("CNOT", &[0, 1], &[]),
-    ("CNOT", &[2, 0], &[]),
-    ("CZ", &[1, 2], &[]),
-    ("ISWAP", &[0, 2], &[]),
-    ("CPHASE", &[2, 1], &[0.37]),
-    ("PSWAP", &[1, 0], &[1.3]),
-    ("CCNOT", &[2, 0, 1], &[]),
+/// (name, qubits, parameters, modifiers as in `parse_mods`).  The modified gates strip down (modifiers
+/// removed, leading control / fork qubits dropped, FORKED keeping the second half of its parameters) to
+/// plain gates that are in the menu too, so a program can hold a modified gate *and* its base gate.
+const PLACED: &[(&str, &[u64], &[f64], &str)] = &[
+    ("X", &[0], &[], ""),
+    ("H", &[1], &[], ""),
+    ("S", &[2], &[], ""),
+    ("RX", &[0], &[0.37], ""),
+    ("RZ", &[1], &[-1.1], ""),
+    ("CNOT", &[0, 1], &[], ""),
+    ("CNOT", &[2, 0], &[], ""),
+    ("CZ", &[1, 2], &[], ""),
+    ("ISWAP", &[0, 2], &[], ""),
+    ("CPHASE", &[2, 1], &[0.37], ""),
+    ("PSWAP", &[1, 0], &[1.3], ""),
+    ("CCNOT", &[2, 0, 1], &[], ""),
+    ("S", &[2], &[], "D"),
+    ("X", &[1, 0], &[], "C"),
+    ("RX", &[1, 0], &[1.5, 0.37], "F"),
+    ("CNOT", &[0, 1], &[], "D"),
 ];
 
 fn c15_prog_check(seq: &[usize]) -> Vec<(String, String)> {
     let r = catch(|| {
         let n = 3u64;
         let mut out = vec![];
-        let gates: Vec<Gate> = seq.iter().map(|k| mk_gate(PLACED[*k].0, PLACED[*k].2, PLACED[*k].1, &[])).collect();
+        let gates: Vec<Gate> = seq.iter().map(|k| mk_gate(PLACED[*k].0, PLACED[*k].2, PLACED[*k].1, &parse_mods(PLACED[*k].3))).collect();
         let mut want = eye(8);
         for k in seq {
-            let g = lift(&base(PLACED[*k].0, PLACED[*k].2).unwrap(), PLACED[*k].1, n);
+            let g = lift(&with_mods(PLACED[*k].0, &parse_mods(PLACED[*k].3), PLACED[*k].2).unwrap(), PLACED[*k].1, n);
             want = mul(&g, &want);
         }
         let prog = Program::from_instructions(gates.into_iter().map(Instruction::Gate).collect());
@@ -494,7 +501,7 @@ pub static C15: PropDef = PropDef {
     id: "C15",
     level: "exploration",
     engine: "sweep",
-    rule: "every modifier stack of length <= 4 over {DAGGER, CONTROLLED, FORKED} (121 stacks) x base gates {X, S, RX, PHASE, CNOT, CPHASE, RZ, PSWAP} with total width <= 5 x qubit placements (first 24 per width; thorough: all) with lattice parameters (FORKED doubles them): Gate::to_unitary vs modifiers applied outermost-first, unitarity, DAGGER = adjoint, builder API == struct literal, repeatability, 2-gate program product and program dagger; plus every gate-only program of length <= 3 (thorough 4) over 12 placed gates on 3 qubits (product in order, dagger = adjoint). non-trivial = case with at least one modifier or two gates",
+    rule: "every modifier stack of length <= 4 over {DAGGER, CONTROLLED, FORKED} (121 stacks) x base gates {X, S, RX, PHASE, CNOT, CPHASE, RZ, PSWAP} with total width <= 5 x qubit placements (first 24 per width; thorough: all) with lattice parameters (FORKED doubles them): Gate::to_unitary vs modifiers applied outermost-first, unitarity, DAGGER = adjoint, builder API == struct literal, repeatability, 2-gate program product and program dagger; plus every gate-only program of length <= 3 (thorough 4) over 16 placed gates on 3 qubits, four of them modified (DAGGER S, CONTROLLED X, FORKED RX, DAGGER CNOT) and stripping down to plain gates of the same menu (product in order, dagger = adjoint). non-trivial = case with at least one modifier or two gates",
     assumptions: &["reference: mc/src/props/gates.rs with_mods(); modifiers are applied outermost-first, CONTROLLED/FORKED take the leading qubit"],
     run: |ctx| {
         use GateModifier::*;
